@@ -25,6 +25,8 @@ import json
 from typedpy import Structure, Integer, Array, Set, Serializer, Deserializer, mappers, serialize, deserialize_structure
 from typedpy.structures import StructMeta
 from typedpy.serialization.mappers import DoNotSerialize
+import sys as _sys
+_mappers_module = _sys.modules["typedpy.serialization.mappers"]
 
 NAMES = ["a_b1", "x", "aB", "first_name", "a", "b", "c", "a_b", "n", "m", "q_r", "X", "b1", "firstName",
          "A", "k", "n_1", "abc", "a_bC", "first_Name", "a_b1c", "x_2y"]
@@ -460,6 +462,21 @@ def to_py_dict(entries):
     return out
 
 
+def mapper_to_wire(m):
+    """a resolved (aggregated) mapper dict of the real code -> wire dict"""
+    out = []
+    for k, v in m.items():
+        if isinstance(v, str):
+            out.append([k, v])
+        elif v is DoNotSerialize:
+            out.append([k, {"dns": True}])
+        elif isinstance(v, dict):
+            out.append([k, mapper_to_wire(v)])
+        else:
+            out.append([k, {"other": repr(v)[:60]}])
+    return {"d": out}
+
+
 def to_py_attr(a):
     if isinstance(a, dict) and "list" in a:
         return [to_py_mapper(m) for m in a["list"]]
@@ -707,8 +724,13 @@ def run_call(cd, registry, case):
     doc = None
     if ser_w is not None:
         try:
+            real_cache = _mappers_module.aggregated_mapper_by_class
+            before = set(real_cache)
             doc = ser_w.serialize(camel_case_convert=camel)
             out["doc"] = doc_to_wire(doc)
+            names = {c: n for n, c in registry.items()}
+            out["cache_new"] = [[names.get(k[0], getattr(k[0], "__name__", "?")), "ov" if k[1] else "", bool(k[2]),
+                                 mapper_to_wire(v)] for k, v in real_cache.items() if k not in before]
             doc_f = serialize(x, mapper=explicit, camel_case_convert=camel)
             if doc_f != doc:
                 out["ser_paths_differ"] = [doc, doc_f]
@@ -759,7 +781,7 @@ def cls_to_wire(cd):
     names = level_names(cd)
     graph = [{"name": names[li], "bases": level_bases(cd, li), "ser": lv["mapper"], "des": lv.get("des"),
               "closed": bool(lv.get("addl"))} for li, lv in enumerate(cd["levels"])]
-    return {"graph": graph, "top": names[-1], "fields": fields}
+    return {"graph": graph, "top": names[-1], "fields": fields, "cid": cd["name"]}
 
 
 def call_wire(cd, call, impl):
@@ -911,6 +933,9 @@ def correspondence(cd, impl, model):
         if "ok" in r and canon_inst(r["ok"], cd) != canon_inst(m["ok"], cd):
             return (f"{key} instance differs: real {json.dumps(canon_inst(r['ok'], cd))[:300]} model "
                     f"{json.dumps(canon_inst(m['ok'], cd))[:300]}")
+    if "cache_new" in impl and "cacheNew" in model and impl["cache_new"] != model["cacheNew"]:
+        return ("entries filed in aggregated_mapper_by_class by this call differ: real "
+                + json.dumps(impl["cache_new"])[:400] + " model " + json.dumps(model["cacheNew"])[:400])
     if not model["keysLaw"]:
         return "model's own document does not satisfy keysLaw (theorem ser_keys_eq_image contradicted?)"
     return None
